@@ -92,7 +92,7 @@ Definition c13_step_ok (slot : N) (ct : content) (hist : list bstep) (st : bstep
   let upto := hist ++ [st] in
   let evs := all_events_b upto in
   let shs := dissem_shreds upto in
-  let repaired := existsb (fun s => match bs_op' s with BRepair _ _ => true | _ => false end) upto in
+  let repaired := existsb (fun s => match bs_op' s with BRepair _ _ _ => true | _ => false end) upto in
   let own := match own_slices upto with [] => false | _ => true end in
   (count_b is_first_ev evs <=? (if repaired then 2 else 1))
   && (count_b is_invalid_ev evs <=? 1)
